@@ -9,12 +9,19 @@ Local Open Scope Z_scope.
 Record thandle := mkTH { ttid : option nat; tsnap : nat; tids : list nat; tissel : bool }.
    (* row reference: tids = [raw id]; selection: the selected raw ids; ttid: Some 0 this table, Some 1 another table *)
 Definition tnull : thandle := mkTH None 0 [] false.
-Record tstate := mkTS { cver : nat; rver : nat; nextid : nat; rows : list (nat * Z); ths : nat -> thandle }.
+(* index look-up handle (grow round 4): the RowHashBounds returned by FindByMultiHash(index, column == bval).  Two keepers: the raw
+   bounds / raw iterators (DataRawMultiHashIterator) snapshot changeVersion, the row bounds and the row references they produce
+   snapshot removeVersion.  All rows of the bounds hold the same item, so reads do not depend on the hash order. *)
+Record bhandle := mkBH { bok : bool; bcsnap : nat; brsnap : nat; bval : Z; bids : list nat }.
+Definition bnull : bhandle := mkBH false 0 0 0 [].
+Record tstate := mkTS { cver : nat; rver : nat; nextid : nat; rows : list (nat * Z); ths : nat -> thandle; tbs : nat -> bhandle }.
 Inductive tout := TAcc (v : option Z) | TRej | TUndef.
 
 Definition tset (s : tstate) (i : nat) (h : thandle) : tstate :=
-  mkTS (cver s) (rver s) (nextid s) (rows s) (fun j => if Nat.eqb j i then h else ths s j).
-Definition tupd (s : tstate) (c r n : nat) (l : list (nat * Z)) : tstate := mkTS c r n l (ths s).
+  mkTS (cver s) (rver s) (nextid s) (rows s) (fun j => if Nat.eqb j i then h else ths s j) (tbs s).
+Definition tbset (s : tstate) (i : nat) (b : bhandle) : tstate :=
+  mkTS (cver s) (rver s) (nextid s) (rows s) (ths s) (fun j => if Nat.eqb j i then b else tbs s j).
+Definition tupd (s : tstate) (c r n : nat) (l : list (nat * Z)) : tstate := mkTS c r n l (ths s) (tbs s).
 Fixpoint find_id (id : nat) (l : list (nat * Z)) : option Z :=
   match l with [] => None | (i, v) :: t => if Nat.eqb i id then Some v else find_id id t end.
 Fixpoint index_of (id : nat) (l : list (nat * Z)) : option nat :=
@@ -52,7 +59,12 @@ Inductive top :=
 | TSelCount (ssel : nat)
 | TRemoveSel (ssel : nat)              (* table.Remove(sel.GetBegin(), sel.GetEnd()) *)
 | TClear
-| TCount.
+| TCount
+| TFindMulti (v : Z) (slot : nat)      (* table.FindByMultiHash(index, column == v) *)
+| TBoundsCount (slot : nat)            (* bounds.GetCount(): noexcept, no check *)
+| TBoundsAt (slot : nat) (j : nat)     (* bounds[j][column] *)
+| TBoundsSum (slot : nat).             (* for (row : bounds) sum += row[column] *)
+Definition bfresh (s : tstate) (b : bhandle) : bool := Nat.eqb (bcsnap b) (cver s) && Nat.eqb (brsnap b) (rver s).
 
 Definition val_of (s : tstate) (id : nat) : Z := match find_id id (rows s) with Some v => v | None => 0 end.
 Fixpoint insert_by (f : nat -> Z) (x : nat) (l : list nat) : list nat :=
@@ -200,9 +212,31 @@ Definition tstep (s : tstate) (o : top) : tstate * tout :=
     end
   | TClear => (tupd s (S (cver s)) (S (rver s)) (nextid s) [], TAcc None)
   | TCount => (s, TAcc (Some (Z.of_nat (tcount s))))
+  | TFindMulti v slot =>
+    let ids := map fst (filter (fun e => snd e =? v) (rows s)) in
+    (tbset s slot (mkBH true (cver s) (rver s) v ids), TAcc (Some (Z.of_nat (length ids))))
+  | TBoundsCount slot =>
+    let b := tbs s slot in
+    if bok b then (s, TAcc (Some (Z.of_nat (length (bids b))))) else (s, TUndef)
+  | TBoundsAt slot j =>
+    let b := tbs s slot in
+    if bok b then
+      if Nat.ltb j (length (bids b)) then                 (* MOMO_CHECK(index < GetCount()) comes first *)
+        if bfresh s b then (s, TAcc (Some (bval b)))      (* raw iterator -> : Check(changeVersion); row reference: Check(removeVersion) *)
+        else (s, TRej)
+      else (s, TRej)
+    else (s, TUndef)
+  | TBoundsSum slot =>
+    let b := tbs s slot in
+    if bok b then
+      match bids b with
+      | [] => (s, TAcc (Some 0))                          (* begin == end: nothing is dereferenced *)
+      | _ => if bfresh s b then (s, TAcc (Some (bval b * Z.of_nat (length (bids b))))) else (s, TRej)
+      end
+    else (s, TUndef)
   end.
 
-Definition tinit : tstate := mkTS 0 0 0 [] (fun _ => tnull).
+Definition tinit : tstate := mkTS 0 0 0 [] (fun _ => tnull) (fun _ => bnull).
 Fixpoint trun (s : tstate) (ops : list top) : tstate :=
   match ops with [] => s | o :: t => trun (fst (tstep s o)) t end.
 Fixpoint trun_out (s : tstate) (ops : list top) : tstate * list tout :=
